@@ -7,6 +7,7 @@ import Mathlib.Tactic.FieldSimp
 import Mathlib.Data.List.Nodup
 import ERP.Lemmas.GenArith
 import ERP.Lemmas.GenTemplates
+import ERP.Lemmas.GenTies
 /-! # C07 — Commands synthesised by the filter are well-formed plain-decimal G-code
 
 `formatNumber` is the model of `CommonMixin.formatNumber` applied to `str(value)`; the text CPython's
